@@ -47,6 +47,10 @@ func run(sc scenario) (body func(), check func(r *vrt.Result) []finding) {
 			opt.NoServerReader = true
 			opt.ProxyToServerCap = 64
 		}
+		if sc.State == "client_stalled" {
+			opt.NoClientReader = true
+			opt.ProxyToClientCap = 64
+		}
 		if sc.Event == "dial_error" {
 			opt.DialErr = fmt.Errorf("simulated dial failure")
 		}
@@ -89,10 +93,23 @@ func run(sc scenario) (body func(), check func(r *vrt.Result) []finding) {
 				})
 				_ = t
 				vrt.WaitQuiescent()
+			case "client_stalled":
+				// mirror image: the client has stopped reading, the server floods, the server->client writer blocks
+				vrt.GoNamed("server-flood", func() {
+					for i := 0; i < 24; i++ {
+						if w.Server.Write(hw.Spec{T: "priority", Stream: uint32(2*i + 1), Prio: true, Weight: 9}) != nil {
+							return
+						}
+					}
+				})
+				vrt.WaitQuiescent()
 			}
 		}
 		// peers react to EOF by closing
 		vrt.GoNamed("client-peer", func() {
+			if sc.State == "client_stalled" {
+				return // a stuck peer does nothing
+			}
 			vrt.WaitUntil("client-reader-end", func() bool { return w.Client.RdDone })
 			w.Client.Conn.Close()
 		})
@@ -197,7 +214,7 @@ func scenarios(tier string) []scenario {
 		b = 2
 	}
 	for _, ev := range []string{"client_close", "server_close", "write_err_client", "write_err_server", "bad_frame_client", "bad_frame_server", "shutdown"} {
-		for _, st := range []string{"idle", "midstream", "blocked", "output_full"} {
+		for _, st := range []string{"idle", "midstream", "blocked", "output_full", "client_stalled"} {
 			out = append(out, scenario{Event: ev, State: st, Bound: b})
 		}
 	}
@@ -329,7 +346,7 @@ func main() {
 	rep.Coverage["transitions"] = rep.Counter("points")
 	rep.Coverage["traces_validated_against_impl"] = rep.Counter("executions")
 	rep.Coverage["exhaustive"] = rep.Incomplete == ""
-	rep.Coverage["bounds"] = fmt.Sprintf("%d scenarios = 7 terminating events x 4 session states + bad preface + dial error; every schedule with <= %d deviations", len(scen), scen[0].Bound)
+	rep.Coverage["bounds"] = fmt.Sprintf("%d scenarios = 7 terminating events x 5 session states + bad preface + dial error; every schedule with <= %d deviations", len(scen), scen[0].Bound)
 	rep.Coverage["explanation"] = "each execution runs the real h2 relay between frame-level endpoints that close their side when they observe EOF/error; the oracle is evaluated at the first quiescent point after the terminating event with zero virtual time elapsed"
 	rep.Assumptions = []string{"TLS is replaced by the dial seam (no close_notify)", "a peer that stopped reading never closes"}
 	rep.Finish()
